@@ -66,12 +66,15 @@ def main(argv=None):
         # so the property is decided by whichever view discharges every obligation.
         known0, _fx = load_known()
         if any(not (v.key in known0 and known0[v.key].get('property') == prop) for r in results for v in r.violations):
-            try:
-                ctx2 = ctx.inlined_view()
-            except Exception:
-                traceback.print_exc()
-                ctx2 = None
-            if ctx2 is not None:
+            decided = False
+            for vname, split in (('inlined', False), ('inlined + decision-split', True)):
+                try:
+                    ctx2 = ctx.inlined_view(split=split)
+                except Exception:
+                    traceback.print_exc()
+                    ctx2 = None
+                if ctx2 is None:
+                    continue
                 try:
                     results2 = mod.run(ctx2, a.tier)
                 except Exception:
@@ -81,19 +84,20 @@ def main(argv=None):
                                                     for r in results2 for v in r.violations):
                     n1 = sum(len(r.violations) for r in results)
                     results = results2
-                    view_note = 'decided in the inlined view (%d report(s) of the per-function view discharged in caller context); helpers inlined: %s' % (
-                        n1, ', '.join(ctx2.inlined_used))
+                    view_note = 'decided in the %s view (%d report(s) of the per-function view discharged in context); transformations: %s' % (
+                        vname, n1, ', '.join(ctx2.inlined_used))
                     results[0].notes.append(view_note)
                     ctx = ctx2
-                else:
-                    if a.v or os.environ.get('OXA_DEBUG_VIEW'):
-                        for rr in (results2 or []):
-                            for v in rr.violations:
-                                print('   [inlined view] %s: %s [%s] at %s' % (v.rule, v.msg, v.fn, v.loc))
-                    results[0].notes.append('inlined view (helpers %s) also reports violations; reporting the per-function view' %
-                                            ', '.join(ctx2.inlined_used))
-                    from . import planner as _planner
-                    _planner.set_ctx(ctx)
+                    decided = True
+                    break
+                if a.v or os.environ.get('OXA_DEBUG_VIEW'):
+                    for rr in (results2 or []):
+                        for v in rr.violations:
+                            print('   [%s view] %s: %s [%s] at %s' % (vname, v.rule, v.msg, v.fn, v.loc))
+                results[0].notes.append('%s view (%s) also reports violations' % (vname, ', '.join(ctx2.inlined_used)))
+            if not decided:
+                from . import planner as _planner
+                _planner.set_ctx(ctx)
         if a.tier == 'thorough':
             from . import thorough
             results = results + thorough.run(ctx, prop, mod)
